@@ -107,34 +107,35 @@ Section Facts.
     destruct (exec_par sh term chain partitions); reflexivity.
   Qed.
 
-  Theorem run_collect_transparent mode co fs term chain :
-    fst (run_collect sh readdir H avail pct clock mode co fs term chain) = run_plain sh mode term chain.
+  Theorem run_collect_transparent mode suggested default co fs term chain :
+    fst (run_collect sh readdir H avail pct clock mode suggested default co fs term chain)
+    = run_plain sh mode suggested default term chain.
   Proof.
     unfold run_collect. destruct co as [c|]; [|reflexivity].
-    destruct (c_enabled c); [|reflexivity]. destruct mode as [|n].
+    destruct (c_enabled c); [|reflexivity]. destruct mode as [|p].
     - pose proof (seq_transparent c fs term chain) as E.
       destruct (exec_seq_ckpt _ _ _ _ _ _ _ _ _ _). exact E.
-    - pose proof (par_transparent c fs term chain n) as E.
+    - pose proof (par_transparent c fs term chain (resolve_parts suggested default p)) as E.
       destruct (exec_par_ckpt _ _ _ _ _ _ _ _ _ _). exact E.
   Qed.
 
   (* the instance of transparency at a directory left by a run that died: any history of saves,
      then the newest checkpoint overwritten with arbitrary bytes / torn at any byte *)
-  Theorem recovers d0 max0 h junk k mode co term chain :
-    let pid := run_pid H mode chain in
+  Theorem recovers d0 max0 h junk k mode suggested default co term chain :
+    let pid := run_pid H mode suggested default chain in
     let left := saves_of readdir max0 d0 h in
-    fst (run_collect sh readdir H avail pct clock mode co
+    fst (run_collect sh readdir H avail pct clock mode suggested default co
                      (Some (overwrite_latest readdir pid junk left)) term chain)
-    = run_plain sh mode term chain
-    /\ fst (run_collect sh readdir H avail pct clock mode co
+    = run_plain sh mode suggested default term chain
+    /\ fst (run_collect sh readdir H avail pct clock mode suggested default co
                         (Some (truncate_latest readdir pid k left)) term chain)
-       = run_plain sh mode term chain.
+       = run_plain sh mode suggested default term chain.
   Proof. intros pid left. split; apply run_collect_transparent. Qed.
 
   (* a configuration that is absent or not enabled never touches (or creates) the directory *)
-  Theorem run_collect_disabled mode co fs term chain :
+  Theorem run_collect_disabled mode suggested default co fs term chain :
     match co with Some c => c_enabled c = false | None => True end ->
-    snd (run_collect sh readdir H avail pct clock mode co fs term chain) = fs.
+    snd (run_collect sh readdir H avail pct clock mode suggested default co fs term chain) = fs.
   Proof.
     unfold run_collect. destruct co as [c|]; [|reflexivity]. intros ->. reflexivity.
   Qed.
